@@ -1346,7 +1346,7 @@ class FuncEscapePattern(ValueFunc):
                 "the result can be used in pattern matching to match",
                 "the literal string.",
                 "",
-                "Currently, the | and . characters are escaped.",
+                "All characters with a special meaning in patterns are escaped.",
                 "",
                 ": escape_pattern('|') ==> '\\\\|'",
                 ": escape_pattern('|.|') ==> '\\\\|\\\\.\\\\|'",
@@ -1360,7 +1360,7 @@ class FuncEscapePattern(ValueFunc):
         if args.isNull("s"):
             return NULL
         value = args.getString("s").value
-        return ValueString(value.replace("|", "\\|").replace(".", "\\."))
+        return ValueString(re.escape(value))
 
 
 class FuncEval(ValueFunc):
